@@ -171,6 +171,10 @@ func (fv *FnV) evalConversion(st *State, call *ast.CallExpr, to types.Type) Val 
 	case isIntType(to) && isFloatType(from):
 		t := fv.name("f", v.T, "Real")
 		r := fmt.Sprintf("(ite (>= %s 0.0) (to_int %s) (- (to_int (- %s))))", t, t, t)
+		if it, ok := fv.intOf[v.T]; ok {
+			// the operand is an integer-valued float produced by Floor/Ceil/Round/Trunc
+			r = it
+		}
 		r = fv.name("tr", r, "Int")
 		if !fv.spec && !fv.noF2I {
 			lo, hi, _ := intRange(to)
@@ -387,15 +391,26 @@ func (fv *FnV) evalExternal(st *State, call *ast.CallExpr, o *types.Func) []Val 
 	switch full {
 	case "math.Abs":
 		return []Val{{fmt.Sprintf("(ite (>= %s 0.0) %s (- %s))", a(0), a(0), a(0)), realT}}
-	case "math.Floor":
-		return []Val{{fmt.Sprintf("(to_real (to_int %s))", a(0)), realT}}
-	case "math.Ceil":
-		return []Val{{fmt.Sprintf("(- (to_real (to_int (- %s))))", a(0)), realT}}
-	case "math.Trunc":
-		return []Val{{fmt.Sprintf("(ite (>= %s 0.0) (to_real (to_int %s)) (- (to_real (to_int (- %s)))))", a(0), a(0), a(0)), realT}}
-	case "math.Round":
-		// half away from zero
-		return []Val{{fmt.Sprintf("(ite (>= %s 0.0) (to_real (to_int (+ %s 0.5))) (- (to_real (to_int (+ (- %s) 0.5)))))", a(0), a(0), a(0)), realT}}
+	case "math.Floor", "math.Ceil", "math.Trunc", "math.Round":
+		x := fv.name("fx", a(0), "Real")
+		var it string
+		switch full {
+		case "math.Floor":
+			it = fmt.Sprintf("(to_int %s)", x)
+		case "math.Ceil":
+			it = fmt.Sprintf("(- (to_int (- %s)))", x)
+		case "math.Trunc":
+			it = fmt.Sprintf("(ite (>= %s 0.0) (to_int %s) (- (to_int (- %s))))", x, x, x)
+		default: // Round: half away from zero
+			it = fmt.Sprintf("(ite (>= %s 0.0) (to_int (+ %s 0.5)) (- (to_int (+ (- %s) 0.5))))", x, x, x)
+		}
+		it = fv.name("ri", it, "Int")
+		rt := fmt.Sprintf("(to_real %s)", it)
+		if fv.intOf == nil {
+			fv.intOf = map[string]string{}
+		}
+		fv.intOf[rt] = it
+		return []Val{{rt, realT}}
 	case "math.Modf":
 		t := fv.name("mf", a(0), "Real")
 		ip := fv.name("ip", fmt.Sprintf("(ite (>= %s 0.0) (to_real (to_int %s)) (- (to_real (to_int (- %s)))))", t, t, t), "Real")
